@@ -765,7 +765,8 @@ def mutants():
           "            chars = charsUntilRegEx[(characters, opposite)] = re.compile(\"[%s]+\" % (regex + self.chunk[:0]))", "R12.2"),
         T("global-list", "html5parser.py", "def impliedTagToken(name, type=\"EndTag\", attributes=None,\n                    selfClosing=False):\n    if attributes is None:\n        attributes = {}\n",
           "_seen = []\n\n\ndef impliedTagToken(name, type=\"EndTag\", attributes=None,\n                    selfClosing=False):\n    _seen.append(name)\n    if attributes is None:\n        attributes = {}\n", "R12.2"),
-        T("serializer-errors-kept", "serializer.py", "        in_cdata = False\n        self.errors = []\n", "        in_cdata = False\n", "R12.3"),
+        T("serializer-errors-kept", "serializer.py", "        after_pre = False\n        self.errors = []\n", "        after_pre = False\n", "R12.3"),
+        T("serializer-after-pre-on-self", "serializer.py", "            first_in_pre = after_pre\n            after_pre = False\n", "            first_in_pre = getattr(self, 'after_pre', False)\n            self.after_pre = after_pre\n            after_pre = False\n", "R12.3"),
         T("filter-state-on-self", "filters/whitespace.py", "        preserve = 0\n        for token in base.Filter.__iter__(self):",
           "        preserve = 0\n        self.depth = getattr(self, 'depth', 0) + 1\n        for token in base.Filter.__iter__(self):", "R12.3"),
         T("trie-cache-on-path", "_trie/py.py", "        if prefix in self._data:\n            return True\n",
